@@ -224,8 +224,12 @@ func genRequesters(t *kernel.Tape) (rs []*requester) {
 				Enabled: t.Chance(2, 3, "sb"), DangerousDomainsEnabled: true, NewlyRegisteredDomainsEnabled: t.Chance(1, 2, "nrd"),
 			},
 		}
-		if t.Chance(1, 2, "svc") {
-			rq.conf.Parental.BlockedServices = []filter.BlockedServiceID{"svc_a"}
+		if t.Chance(2, 3, "svc") {
+			// One service, the other, or both: what one requester's service
+			// says about a host is nothing to a requester with another.
+			rq.conf.Parental.BlockedServices = kernel.Pick(t, [][]filter.BlockedServiceID{
+				{"svc_a"}, {"svc_b"}, {"svc_a", "svc_b"}, {"svc_b", "svc_a"},
+			}, "services")
 		}
 		if t.Chance(1, 2, "custom") {
 			rq.conf.Custom.Enabled = true
@@ -238,7 +242,7 @@ func genRequesters(t *kernel.Tape) (rs []*requester) {
 }
 
 func genHost(t *kernel.Tape, ver int, rs []*requester) (host string) {
-	tags := []string{"l0", "l1", "svc", "ss"}
+	tags := []string{"l0", "l1", "svc", "svb", "ss"}
 	for _, id := range hashIDs {
 		tags = append(tags, hashTag(id))
 	}
@@ -251,7 +255,7 @@ func genHost(t *kernel.Tape, ver int, rs []*requester) (host string) {
 
 		return marker(t.Choose(markers, "marker"), v, kernel.Pick(t, tags, "tag"))
 	case 2:
-		return kernel.Pick(t, []string{"allowed.shared.test", "ads.multi-shared.com"}, "shared-host")
+		return kernel.Pick(t, []string{"allowed.shared.test", "ads.multi-shared.com", "both.services.test"}, "shared-host")
 	case 3:
 		return "always.shared.test"
 	case 4:
